@@ -28,3 +28,15 @@ eval_reg("C05", "--magic-transform with *, every non-empty subset of IDB relatio
 eval_reg("C06", "each RAM transformer is skipped singly and in seeded subsets through hook H4 (SOUFFLE_VERIF_SKIP_RAM), interpreter at -j4 and sampled compiled runs.")
 eval_reg("C07", ".plan directives with seeded permutations for every version of every recursive clause with 2-4 atoms, all nine RamSIPS metrics, and profile-guided auto-scheduling (-p --emit-statistics then -a).")
 eval_reg("C08", "btree/brie/btree_delete qualifiers are varied per relation (uniform and mixed), interpreter and compiled; half of the programs use the extreme domain {MIN,-1,MAX}; eqrel relations get closure semantics in the spec.")
+
+COOP_NOTE = ("Trusted: TLC; the cooperative scheduler (harness/coop.h) serialises threads at the SOUFFLE_VERIF yield points, so "
+             "C++ memory-model effects (relaxed orderings, torn non-atomic reads) are not explored; g++ -fno-access-control reads private state.")
+
+reg("C30", "model_checking",
+    "TLC model-checks spec/OptLockImpl.tla (one action per atomic access) over all interleavings; TLC-generated covering schedules and seeded random schedules are replayed on the real lock and every recorded history is validated by TLC against spec/OptLockAbs.tla",
+    "S: every interleaving of 2 clients x <=2 operations and 3 clients x 1 operation (thorough: 3 clients x <=2) of the implementation-shaped spec "
+    "satisfies mutual exclusion, validation soundness, abort-restores-version and termination under weak fairness. "
+    "R: walks covering every transition of the dumped state graph are executed on the real OptimisticReadWriteLock, comparing version, yield point, "
+    "operation index and results after each step (deviation = MODEL-DRIFT, not an alarm). "
+    "T: the API events of every real execution (those walks plus 2000 seeded random 2-3 client schedules) are validated as a behaviour of the property-level spec; a rejected history is the VIOLATION.",
+    COOP_NOTE + " Aborted write phases may overlap a successful validation (third clause of the property).", "DESIGN.md 9 C30")
